@@ -20,7 +20,7 @@ RULE = (
     "parses the printed `[Sheet::][Table::]ref`, determines the candidate tables from the document's names only and must find "
     "exactly one reading, identical to the stored target: same table, same coordinates (relative = host + offset), '$' exactly on "
     "the absolute components, range ends not swapped; a printed label must name exactly the stored row/column. The check is "
-    "repeated after a header label is rewritten , after a table is renamed, after a sheet is renamed, after a header count is set to zero and after a row/column is inserted (formulas whose host cell moved are left out) (cache invalidation). Non-trivial: reference to another table, or a label, or a "
+    "repeated after a header label is rewritten , after a table is renamed, after a sheet is renamed, after a header count is set to zero and after a row/column is inserted (formulas whose host cell moved are left out) and after two label cells are merged (cache invalidation); one table in six has two label cells merged from the start. Non-trivial: reference to another table, or a label, or a "
     "mixed absolute/relative range; distinct by (configuration, reference)."
 )
 ASSUMPTIONS = [
@@ -65,8 +65,14 @@ def configs(draw):
                 for r, lab in list(row_labels.items()):
                     if lab and lab in col_labels.values():
                         row_labels[r] = lab + " r"
-            tables.append({"name": name, "rows": rows, "cols": cols, "hr": hr, "hc": hc,
-                           "col_labels": {str(k): v for k, v in col_labels.items()}, "row_labels": {str(k): v for k, v in row_labels.items()}})
+            tc = {"name": name, "rows": rows, "cols": cols, "hr": hr, "hc": hc,
+                  "col_labels": {str(k): v for k, v in col_labels.items()}, "row_labels": {str(k): v for k, v in row_labels.items()}}
+            if hr and cols - hc >= 2 and draw(st.integers(0, 5)) == 0:
+                # two neighbouring cells of the label row merged: the hidden one has no value and names nothing
+                c0 = draw(st.integers(hc, cols - 2))
+                tc["header_merge"] = [hr - 1, c0, c0 + 1]
+                tc["col_labels"][str(c0 + 1)] = ""
+            tables.append(tc)
         sheets.append({"name": SHEET_NAMES[si], "tables": tables})
     return {"sheets": sheets}
 
@@ -94,6 +100,11 @@ def build(config):
             for r, lab in tc["row_labels"].items():
                 if lab != "":
                     t.write(int(r), tc["hc"] - 1, lab)
+            if tc.get("header_merge"):
+                from vf import a1
+
+                r_, c0_, c1_ = tc["header_merge"]
+                t.merge_cells(a1.cell_name(r_, c0_) + ":" + a1.cell_name(r_, c1_))
             for r in range(tc["hr"], tc["rows"]):
                 for c in range(tc["hc"], tc["cols"]):
                     t.write(r, c, r * 10 + c)
@@ -320,9 +331,10 @@ def check_config(ctx, case):
                 sub = {"lane": "config", "config": config, "refs": [ref], "phase": phase,
                        "edit": case.get("edit") if phase != "reopened" else None,
                        "rename": case.get("rename") if phase not in ("reopened", "after_header_edit") else None,
-                       "rename_sheet": case.get("rename_sheet") if phase in ("after_sheet_rename", "after_header_zero", "after_insert") else None,
-                       "header_zero": case.get("header_zero") if phase in ("after_header_zero", "after_insert") else None,
-                       "insert": case.get("insert") if phase == "after_insert" else None}
+                       "rename_sheet": case.get("rename_sheet") if phase in ("after_sheet_rename", "after_header_zero", "after_insert", "after_header_merge") else None,
+                       "header_zero": case.get("header_zero") if phase in ("after_header_zero", "after_insert", "after_header_merge") else None,
+                       "insert": case.get("insert") if phase in ("after_insert", "after_header_merge") else None,
+                       "merge_header": case.get("merge_header") if phase == "after_header_merge" else None}
                 ctx.ev()
                 with warnings.catch_warnings():
                     warnings.simplefilter("ignore")
@@ -415,6 +427,7 @@ def check_config(ctx, case):
         # a column / row inserted into a table: stored
         # references keep their coordinates, the labels move on by one
         ins = case.get("insert")
+        skip_now = None
         if ins:
             import copy
 
@@ -426,7 +439,7 @@ def check_config(ctx, case):
                 k = h + int(frac * (n - h))
                 # formulas hosted in the table at or after the insertion point move with their cells (their relative
                 # references then denote other cells): they are left out of this phase
-                moved_host = lambda r: r["host_table"] == [si, ti] and r["host"][ax] >= k  # noqa: E731
+                moved_host = lambda r, si=si, ti=ti, ax=ax, k=k: r["host_table"] == [si, ti] and r["host"][ax] >= k  # noqa: E731
                 cfg6 = copy.deepcopy(cfg_now)
                 t6 = cfg6["sheets"][si]["tables"][ti]
                 tab = d2.sheets[si].tables[ti]
@@ -445,6 +458,24 @@ def check_config(ctx, case):
                 read_all(d2, "after_insert", cfg6, skip=moved_host)
                 ctx.count("lines_inserted")
                 cfg_now = cfg6
+                skip_now = moved_host
+        # two label cells merged on the open document: the hidden one stops naming its column
+        hm = case.get("merge_header")
+        if hm:
+            import copy
+
+            from vf import a1
+
+            si, ti, frac = hm
+            tcn = cfg_now["sheets"][si]["tables"][ti]
+            if tcn["hr"] and tcn["cols"] - tcn["hc"] >= 2 and not tcn.get("header_merge"):
+                c0 = tcn["hc"] + int(frac * (tcn["cols"] - tcn["hc"] - 1))
+                cfg7 = copy.deepcopy(cfg_now)
+                d2.sheets[si].tables[ti].merge_cells(a1.cell_name(tcn["hr"] - 1, c0) + ":" + a1.cell_name(tcn["hr"] - 1, c0 + 1))
+                cfg7["sheets"][si]["tables"][ti]["col_labels"][str(c0 + 1)] = ""
+                read_all(d2, "after_header_merge", cfg7, skip=skip_now)
+                ctx.count("header_cells_merged")
+                cfg_now = cfg7
         ctx.count("configurations")
     finally:
         shutil.rmtree(tmp, ignore_errors=True)
@@ -469,8 +500,10 @@ def cases(draw, nrefs):
     header_zero = [hs, ht, draw(st.sampled_from(["row", "col"]))] if draw(st.booleans()) else None
     is_, it_, _ = draw(st.sampled_from(tabs))
     insert = [is_, it_, draw(st.sampled_from(["row", "col"])), draw(st.floats(0, 0.999))]
+    ms, mt, _ = draw(st.sampled_from(tabs))
+    merge_header = [ms, mt, draw(st.floats(0, 0.999))]
     return {"lane": "config", "config": config, "refs": refs, "edit": edit, "rename": rename, "rename_sheet": rename_sheet,
-            "header_zero": header_zero, "insert": insert}
+            "header_zero": header_zero, "insert": insert, "merge_header": merge_header}
 
 
 def tasks(tier, seed):
@@ -487,5 +520,5 @@ def run_task(ctx, lane, **kw):
 
 
 def check_case(ctx, case):
-    case = {k: v for k, v in case.items() if k in ("lane", "config", "refs", "edit", "rename", "rename_sheet", "header_zero", "insert")}
+    case = {k: v for k, v in case.items() if k in ("lane", "config", "refs", "edit", "rename", "rename_sheet", "header_zero", "insert", "merge_header")}
     check_config(ctx, case)
